@@ -1422,6 +1422,9 @@ func (h *ResponseHeader) setSpecialHeader(key, value []byte) bool {
 			return true
 		case caseInsensitiveCompare(strConnection, key):
 			if bytes.Equal(strClose, value) {
+				// Connection is single-valued: drop an earlier value, as
+				// ResetConnectionClose does in the other direction.
+				h.h = delAllArgsStable(h.h, HeaderConnection)
 				h.SetConnectionClose()
 			} else {
 				h.ResetConnectionClose()
@@ -1483,6 +1486,9 @@ func (h *RequestHeader) setSpecialHeader(key, value []byte) bool {
 			return true
 		case caseInsensitiveCompare(strConnection, key):
 			if bytes.Equal(strClose, value) {
+				// Connection is single-valued: drop an earlier value, as
+				// ResetConnectionClose does in the other direction.
+				h.h = delAllArgsStable(h.h, HeaderConnection)
 				h.SetConnectionClose()
 			} else {
 				h.ResetConnectionClose()
